@@ -73,7 +73,7 @@ def check_case(g: GSpec, X, Y, est, model: SymL2, den: Denoter, env_mode: str, t
             out["violation"] = {"kind": "vocabulary", "why": str(e), "env": env}
             return out
         rhs = model.prob_rat(TARGET, {x: env[x] for x in X}, {y: env[y] for y in Y})
-        dec = Decider(model.constraints, timeout_ms)
+        dec = Decider(model.constraints, timeout_ms, model.params)
         verdict, m, dt = dec.differ(lhs, rhs)
         out["queries"] += 1
         out["secs"] += dt
@@ -140,6 +140,20 @@ def work(job):
     return res
 
 
+def deep5_jobs(env_mode, timeout_ms):
+    """5-node inputs whose reference ID trace nests line 6 / line 7 below a line-7 frame (inputs only, see
+    tools/gen_corpus5.py); grouped by graph."""
+    import json
+    from pathlib import Path
+
+    data = json.loads((Path(__file__).resolve().parent.parent / "data" / "id_deep5.json").read_text())
+    by_g: dict = {}
+    for c in data["cases"]:
+        g = GSpec.from_json(c["g"])
+        by_g.setdefault(g, []).append((frozenset(c["X"]), frozenset(c["Y"])))
+    return [(g, env_mode, timeout_ms, qs) for g, qs in by_g.items()]
+
+
 def jobs_for(t: str):
     jobs = []
     if t == "quick":
@@ -154,7 +168,9 @@ def jobs_for(t: str):
         for i, g in enumerate(family(4, labellings=("fwd",), n_min=4)):
             if i % 8 == seed() % 8:
                 jobs.append((g, "diag", TIMEOUT_MS[t], None))
+        jobs += deep5_jobs("diag", 3000)
     else:
+        jobs += deep5_jobs("all", TIMEOUT_MS[t])
         for g in family(4):
             jobs.append((g, "all", TIMEOUT_MS[t], None))
         for name, g in CURATED.items():
@@ -171,7 +187,7 @@ def run() -> int:
         "returned y0.dsl Expression -> z3 polynomial terms (vf/sem/denote.py)",
     ]
     rep.bounds = {
-        "graphs": "quick: every ADMG with <=3 nodes up to isomorphism under two labellings + curated 4/5-node graphs + 1/8 of the 4-node classes; thorough: every ADMG with <=4 nodes (1567 classes at n=4) under two labellings + curated list",
+        "graphs": "both tiers: 382 five-node (graph, X, Y) inputs whose reference ID trace reaches line 6 or a second line 7 below a line-7 frame (104 distinct trace signatures, vf/data/id_deep5.json); quick: every ADMG with <=3 nodes up to isomorphism under two labellings + curated 4/5-node graphs + 1/8 of the 4-node classes; thorough: every ADMG with <=4 nodes (1567 classes at n=4) under two labellings + curated list",
         "queries": "all disjoint non-empty (X, Y)",
         "models": "all positive SCMs with binary observed variables and one binary latent per bidirected edge (every parameter a z3 Real)",
         "value_assignments": "all assignments of the free variables (curated 5-node graphs and the quick A(4) slice: the all-equal assignments)",
